@@ -17,7 +17,7 @@ from checks import gossip as G
 
 FILES = ["NodeStateOps.tla", "FdOps.tla", "Gossip.tla", "Hostile.tla", "MC_Hostile.tla",
          "ObserveGossip.tla", "MC_ObserveGossip.tla", "TraceGossip.tla", "MC_TraceGossip.tla"]
-INV = ["C12_Sets"]
+INV = ["C12_Sets", "C04_NoPanic"]   # C04_NoPanic: no later (honest or hostile) message aborts the node either
 PROPS = ["C09_RecvNoPanic", "C09_UndecodableNoop", "C04_Monotonic"]
 
 
@@ -71,6 +71,7 @@ def model_consts(tier):
     c.update({"Key": vlib.tla_set(["k1"]), "Val": vlib.tla_set(["a"]), "MaxVer": 1, "MaxInflight": 1,
               "Enable": vlib.tla_set(["api"]), "Victims": vlib.tla_set(["n2"]),
               "Members": vlib.tla_set(["n1", "n2"] if tier == "quick" else ["n1", "n2", "z"]),
+              "HKeys": vlib.tla_set(["k1"]), "WalkLen": 0,
               "HVals": "{0, 1, 2}", "MaxOps": 3, "MaxHostile": 1, "MaxDepth": 3 if tier == "quick" else 4,
               "StrictSetMax": "TRUE"})
     return c
